@@ -5,9 +5,11 @@ pub mod c02;
 pub mod c05;
 pub mod c06;
 pub mod c07;
+pub mod c09;
 pub mod c10;
 pub mod c11;
 pub mod c12;
+pub mod c13;
 pub mod c15;
 pub mod c18;
 
@@ -18,9 +20,11 @@ pub fn all() -> Vec<&'static PropDef> {
         &c05::PROP,
         &c06::PROP,
         &c07::PROP,
+        &c09::PROP,
         &c10::PROP,
         &c11::PROP,
         &c12::PROP,
+        &c13::PROP,
         &c15::PROP,
         &c18::PROP,
     ]
